@@ -97,14 +97,17 @@ pub fn list_slice<T: Clone>(list: &[T], start: Option<i64>, end: Option<i64>, st
             if let Some(v) = list.get(i as usize) {
                 out.push(v.clone());
             }
-            i += step;
+            // `i + step` can exceed i64 for huge steps; past the end either way.
+            let Some(next) = i.checked_add(step) else { break };
+            i = next;
         }
     } else {
         while i > end_idx {
             if let Some(v) = list.get(i as usize) {
                 out.push(v.clone());
             }
-            i += step; // negative
+            let Some(next) = i.checked_add(step) else { break }; // negative
+            i = next;
         }
     }
 
